@@ -251,11 +251,17 @@ impl ToZinc for Uri {
 
 impl ToZinc for XStr {
     fn to_zinc<W: std::io::Write>(&self, writer: &mut W) -> Result<()> {
-        writer.write_fmt(format_args!(
-            "{}{}(",
-            self.r#type[0..1].to_uppercase(),
-            &self.r#type[1..],
-        ))?;
+        // Capitalize the first character of the type; don't slice by bytes,
+        // the type can be empty or start with a multi-byte character.
+        let mut type_chars = self.r#type.chars();
+        if let Some(first) = type_chars.next() {
+            writer.write_fmt(format_args!(
+                "{}{}",
+                first.to_uppercase(),
+                type_chars.as_str()
+            ))?;
+        }
+        writer.write_all(b"(")?;
         // The value is a Str literal and needs the same escaping
         Str::from(self.value.as_str()).to_zinc(writer)?;
         writer.write_all(b")")?;
